@@ -30,6 +30,14 @@ static EDGE: HookedU64 = HookedU64::new(0);
 /// statistics: lock calls of registered threads, and how many of them found the mutex busy
 pub static LOCKS: AtomicU64 = AtomicU64::new(0);
 pub static CONTENDED: AtomicU64 = AtomicU64::new(0);
+/// set per case: the happens-before edge RMW is only needed (and only costs yield points) in weak-memory mode
+pub static WEAK: std::sync::atomic::AtomicBool = std::sync::atomic::AtomicBool::new(false);
+
+fn edge() {
+    if WEAK.load(Ordering::Relaxed) {
+        EDGE.fetch_add(1, HookedOrdering::AcqRel);
+    }
+}
 
 fn real(slot: &AtomicUsize, name: &'static [u8]) -> LockFn {
     let mut p = slot.load(Ordering::Relaxed);
@@ -78,7 +86,7 @@ pub unsafe extern "C" fn pthread_mutex_lock(m: *mut libc::pthread_mutex_t) -> c_
         if r != libc::EBUSY {
             if r == 0 || r == libc::EOWNERDEAD {
                 mark(addr);
-                EDGE.fetch_add(1, HookedOrdering::AcqRel);
+                edge();
             }
             return r;
         }
@@ -95,7 +103,7 @@ pub unsafe extern "C" fn pthread_mutex_lock(m: *mut libc::pthread_mutex_t) -> c_
         let r = unsafe { real(&REAL_LOCK, b"pthread_mutex_lock\0")(m) };
         if r == 0 || r == libc::EOWNERDEAD {
             mark(addr);
-            EDGE.fetch_add(1, HookedOrdering::AcqRel);
+            edge();
         }
         return r;
     }
@@ -112,7 +120,7 @@ pub fn reset() {
 pub unsafe extern "C" fn pthread_mutex_unlock(m: *mut libc::pthread_mutex_t) -> c_int {
     let registered = sched::is_registered();
     if registered && is_held(m as usize) {
-        EDGE.fetch_add(1, HookedOrdering::AcqRel);
+        edge();
     }
     let r = unsafe { real(&REAL_UNLOCK, b"pthread_mutex_unlock\0")(m) };
     if is_held(m as usize) {
